@@ -407,6 +407,7 @@ def subspaces(tier):
     subs.append(('f:character-constants-and-oversize-literals', from_groups(charconst_items())))
     subs.append(('g:sub-unit-reservations', list(resv_cases())))
     subs.append(('g:sized-reservations', list(resvn_cases())))
+    subs.append(('h:byte-order-after-a-cpu-switch', list(order_cases())))
     return subs
 
 
@@ -525,6 +526,37 @@ def ev_resvn(case):
     return core.R(True, 'resv-ok', states=['%s/%d' % (sig, case['n'])])
 
 
+ORDER_T = [('st6210', 'word'), ('st6210', 'byte'), ('6502', 'adr'), ('6800', 'fdb'), ('6809', 'fdb'), ('8051', 'dw'), ('z80', 'dw'), ('8086', 'dw'), ('68000', 'dc.w'), ('st7', 'dc.w'),
+           ('msp430', 'word'), ('6805', 'fdb'), ('68hc12', 'fdb'), ('65816', 'adr'), ('8048', 'dw'), ('tms7000', 'dw')]
+ORDER_PRE = [('6809', 'fdb 1'), ('6502', 'adr 1'), ('8086', 'dw 1'), ('68000', 'dc.w 1'), ('st6210', 'word 1')]
+
+
+def order_cases():
+    """the byte order of a word is the selected target's: the same statement after another target has laid down a word in ITS order"""
+    for cpu, stmt in ORDER_T:
+        for pc, ps in ORDER_PRE:
+            yield {'k': 'order', 'cpu': cpu, 'stmt': stmt, 'pcpu': pc, 'pstmt': ps}
+
+
+def ev_order(case):
+    res = []
+    for first in (0, 1):
+        l = (['\tcpu ' + case['pcpu'], '\t' + case['pstmt']] if first else []) + ['\tcpu ' + case['cpu'], '\torg 1000', '\t%s 1234h,56h' % case['stmt']]
+        core.fresh()
+        core.put('a.asm', '\n'.join(l) + '\n')
+        o = core.run('asl', ['-q', 'a.asm'])
+        ck = core.crashkind(o)
+        if ck:
+            return core.R(False, ck, 'crash/order/' + ck, '%s on %s' % (ck, ' / '.join(x.strip() for x in l)), transitions=2)
+        p = core.get('a.p')
+        if o.rc != 0 or p is None:
+            return core.R(True, 'order-not-applicable', nontrivial=False, transitions=2)
+        res.append(b''.join(r.data for r in pfile.data_records(pfile.read(p)) if r.start == 1000))
+    if res[0] != res[1]:
+        return core.R(False, 'order', 'order/%s/%s' % (case['cpu'], case['stmt']), '`%s 1234h,56h` on %s lays down %s, but %s after `cpu %s / %s`' % (case['stmt'], case['cpu'], res[0].hex(), res[1].hex(), case['pcpu'], case['pstmt']), transitions=2)
+    return core.R(True, 'order-ok', states=['order:%s:%s' % (case['cpu'], res[0].hex())], transitions=2)
+
+
 def ev_resv(case):
     def count(t):
         return sum(1 if x == '?' else x[0] * count(x[1]) for x in t)
@@ -564,7 +596,7 @@ def ev_resv(case):
 def describe(case):
     if case['k'] == 'batch':
         return [it['line'].strip()[:60] for it in case['items'][:4]]
-    if case['k'] in ('layout', 'resv', 'resvn'):
+    if case['k'] in ('layout', 'resv', 'resvn', 'order'):
         return case
     return case.get('line', '').strip()[:80]
 
@@ -574,6 +606,8 @@ def sigf(it):
 
 
 def evaluate(case):
+    if case['k'] == 'order':
+        return ev_order(case)
     if case['k'] == 'resvn':
         return ev_resvn(case)
     if case['k'] == 'layout':
